@@ -49,6 +49,7 @@ def cells(tier):
                 out.append({"id": f"getters|{d}{sn}|{be}", "group": "getters", "d": d, "sa": sn, "backend": be})
                 out.append({"id": f"conversions|{d}{sn}|{be}", "group": "conversions", "d": d, "sa": sn, "backend": be})
                 out.append({"id": f"construct|{d}{sn}|{be}", "group": "construct", "d": d, "sa": sn, "backend": be})
+                out.append({"id": f"flavor_ops|{d}{sn}|{be}", "group": "flavor_ops", "d": d, "sa": sn, "backend": be})
             out.append({"id": f"setters|{d}{sn}", "group": "setters", "d": d, "sa": sn, "backend": "object"})
             out.append({"id": f"npassign|{d}{sn}", "group": "npassign", "d": d, "sa": sn, "backend": "numpy"})
             out.append({"id": f"sympy|{d}{sn}", "group": "sympy", "d": d, "sa": sn, "backend": "sympy"})
@@ -120,7 +121,7 @@ def _mk(be, sa, rows, mom, spelling="generic", alt=0):
 def check_case(cell, elems, ctx):
     g = cell["group"]
     fn = {"getters": _getters, "setters": _setters, "conversions": _conversions, "flavor": _flavor, "construct": _construct,
-          "npassign": _npassign, "sympy": _sympy}[g]
+          "npassign": _npassign, "sympy": _sympy, "flavor_ops": _flavor_ops}[g]
     fn(cell, elems, ctx)
     ctx.evaluations -= 1
 
@@ -267,6 +268,56 @@ def _flavor(cell, elems, ctx):
                   f"{str(base)[:300]}")
             return
     ctx.nontrivial(sample={"op": op.name, "first": elems[0]})
+
+
+def _flavor_ops(cell, elems, ctx):
+    """operators, ufuncs and reductions (each backend registers them per flavor): a momentum vector gives bit for bit what
+    the generic vector with the same stored coordinates gives"""
+    d, be = cell["d"], cell["backend"]
+    sa, rows = _rows(cell, elems)
+    if rows is None:
+        ctx.exclude("operand_not_representable")
+        return
+    f = elems[0]["val"]
+    exprs = [("abs(v)", lambda v, w: abs(v)), ("v**2", lambda v, w: v**2), ("v**3", lambda v, w: v**3), ("v**-1", lambda v, w: v**-1),
+             ("v**0.5", lambda v, w: v**0.5), ("numpy.sqrt(v)", lambda v, w: numpy.sqrt(v)), ("numpy.cbrt(v)", lambda v, w: numpy.cbrt(v)),
+             ("numpy.square(v)", lambda v, w: numpy.square(v)), ("numpy.absolute(v)", lambda v, w: numpy.absolute(v)),
+             ("numpy.power(v, 3)", lambda v, w: numpy.power(v, 3)), ("-v", lambda v, w: -v), ("+v", lambda v, w: +v),
+             ("v*s", lambda v, w: v * f), ("s*v", lambda v, w: f * v), ("v/s", lambda v, w: v / f), ("v+w", lambda v, w: v + w),
+             ("v-w", lambda v, w: v - w), ("v==w", lambda v, w: v == w), ("v!=w", lambda v, w: v != w),
+             ("numpy.isclose(v, w)" if be != "awkward" else "v.isclose(w)", (lambda v, w: numpy.isclose(v, w)) if be != "awkward" else (lambda v, w: v.isclose(w)))]
+    if be == "numpy":
+        exprs += [("numpy.sum(v)", lambda v, w: numpy.sum(v)), ("v.sum(axis=0)", lambda v, w: v.sum(axis=0)),
+                  ("numpy.count_nonzero(v)", lambda v, w: numpy.count_nonzero(v))]
+    if be == "awkward":
+        exprs += [("ak.sum(v, axis=-1)", lambda v, w: ak.sum(v, axis=-1)), ("ak.count_nonzero(v, axis=-1)", lambda v, w: ak.count_nonzero(v, axis=-1)),
+                  ("ak.count(v, axis=-1)", lambda v, w: ak.count(v, axis=-1))]
+    spellings = [("generic", 0)] + ([("momentum", a) for a in range(3)] if be == "awkward" else [])
+    G = _mk(be, sa, rows, False)
+    W = _mk(be, sa, rows[::-1], False)
+    for sp, alt in spellings:
+        M = _mk(be, sa, rows, True, sp, alt)
+        for what, fn in exprs:
+            for g_, m_, w_ in zip(G, M, W):
+                ctx.evaluation()
+                with numpy.errstate(all="ignore"):
+                    a, b = _call(lambda: fn(g_, w_)), _call(lambda: fn(m_, w_))
+                if a[0] != b[0]:
+                    _fail(ctx, cell, what, "flavor_changes_value", f"{what}: generic operand gives {a[0]} {str(a[1])[:100]}, momentum operand "
+                          f"({sp} spelling {alt}) gives {b[0]} {str(b[1])[:100]}")
+                    return
+                if a[0] != "ok":
+                    continue
+                try:
+                    ka, kb = _bits(a[1]), _bits(b[1])
+                except Exception as e:  # noqa: BLE001
+                    _fail(ctx, cell, what, "unreadable", f"{what}: result not readable: {e!r}")
+                    return
+                if ka[:2] + ka[3:] != kb[:2] + kb[3:] if ka[0] == "vec" else ka != kb:
+                    _fail(ctx, cell, what, "flavor_changes_value", f"{what}: momentum operand ({sp} spelling {alt}) gives {str(kb)[:200]} but the "
+                          f"generic operand with the same stored coordinates gives {str(ka)[:200]}")
+                    return
+    ctx.nontrivial(sample={"operators_on": f"{d}{cell['sa']} {be}", "first": elems[0]["a"]["c"][:d]})
 
 
 def _construct(cell, elems, ctx):
